@@ -145,6 +145,8 @@ var ParamRoles = map[string][]string{
 	"SrcS": {"src"}, "DTagS": {"dtag"}, "MsgS": {"fmt"},
 	"SrcDTagMsgS": {"src", "dtag", "fmt"}, "SrcDTagS": {"src", "dtag"}, "SrcMsgS": {"src", "fmt"}, "DTagMsgS": {"dtag", "fmt"},
 	"Convert": {}, "ConvertS": {},
+	// not Factory methods: the helper gerror.ExtMsgf on a gerror value / on a foreign error
+	"ExtMsgf": {"fmt"}, "ExtMsgfForeign": {"fmt"},
 }
 
 var MethodNames = []string{"Base", "SourceOnly", "Stack", "Src", "DTag", "Msg", "SrcDTagMsg", "SrcDTag", "SrcMsg", "DTagMsg",
@@ -213,6 +215,21 @@ func ParseCall(ws []string) (c *sites.Call, site, frames, problem string) {
 		}
 	}
 	switch {
+	case m == "ExtMsgfForeign":
+		// first element: the foreign error; the rest: operands of the (dropped) format
+		if len(elems) < 1 {
+			return nil, "", "", "bad-op"
+		}
+		c.Err = elems[0].ErrValue()
+		if _, isG := c.Err.(gerror.Error); isG {
+			return nil, "", "", "bad-op"
+		}
+		for _, e := range elems[1:] {
+			c.Elems = append(c.Elems, e.Value())
+		}
+		if fmt.Sprintf("%+v", c.Err) != formatted {
+			return nil, "", "", "fmt-mismatch"
+		}
 	case m == "Convert" || m == "ConvertS":
 		if len(elems) != 1 {
 			return nil, "", "", "bad-op"
@@ -233,4 +250,21 @@ func ParseCall(ws []string) (c *sites.Call, site, frames, problem string) {
 		}
 	}
 	return c, site, ws[4][2:], ""
+}
+
+// ObsWithError is ObsOf plus Error() with the stack text (checked to be the suffix "\n"+stack.String()
+// exactly when there is a stack) cut off.
+func ObsWithError(e gerror.Error) string {
+	if e == nil {
+		return "nil"
+	}
+	text := e.Error()
+	if st := e.ErrStack(); len(st) > 0 {
+		suffix := "\n" + st.String()
+		if !strings.HasSuffix(text, suffix) {
+			return ObsOf(e) + " e=stack-text-missing"
+		}
+		text = strings.TrimSuffix(text, suffix)
+	}
+	return ObsOf(e) + " e=" + Enc(text)
 }
